@@ -24,6 +24,30 @@ _FREQ = ["From Coq Require Import List NArith Bool.", "From Coq.Strings Require 
          "From MS Require Import Base.Bytes Base.Outcome Base.Prog Webp.Container Webp.Grammar Webp.Vp8l Webp.Vp8lSpec Webp.WebpSpecProofs Props.C07f.",
          "Open Scope N_scope."]
 REQUIRES_FOR = {"C07_file_level": _FREQ, "C07_grammar_monotone": _FREQ}
+_TREQ = ["From Coq Require Import List NArith ZArith Bool.",
+         "From MS Require Import Base.Bytes Base.Outcome Webp.Huffman Webp.Vp8l Gen.WebpTables Webp.TableProofs Props.C07t.",
+         "Import ListNotations.", "Open Scope N_scope."]
+THEOREMS = THEOREMS + [
+    ("C07_color_index_block_is_src", """forall len,
+  color_index_block len = lookup_range COLOR_INDEX_BLOCKS_SRC COLOR_INDEX_BLOCK_DEFAULT_SRC len"""),
+    ("C07_alphabet_size_is_src", """forall k cache_len,
+  alphabet_size k cache_len =
+  match k with
+  | KGreen => ALPHABET_GREEN_BASE_SRC + ALPHABET_GREEN_LEN_SRC + cache_len
+  | KArb => ALPHABET_ARB_SRC
+  | KDist => ALPHABET_DIST_SRC
+  end"""),
+    ("C07_tables_taken_from_source", """DISTANCE_MAP_Z = DISTANCE_MAP_SRC /\\ DISTANCE_MAP_LEN = DISTANCE_MAP_LEN_SRC /\\ CODE_ORDER = CODE_ORDER_SRC /\\
+  N.of_nat (length DISTANCE_MAP_SRC) = DISTANCE_MAP_LEN_SRC /\\ length CODE_ORDER_SRC = 19%nat"""),
+    ("C07_literals_match_source", """TRANSFORM_CODES_SRC = [0; 1; 2; 3] /\\ COLOR_CACHE_MAX_ORDER_SRC = 11 /\\
+  REPEAT_CODES_SRC = [(16, (3, 2)); (17, (3, 3)); (18, (11, 7))] /\\
+  BACKREF_SYMBOLS_SRC = (256, 279) /\\ ALPHABET_GREEN_BASE_SRC + ALPHABET_GREEN_LEN_SRC = 280 /\\
+  VP8L_SIGNATURE_SRC = 47 /\\ LZ77_MAX_SYMBOL_SRC = 39 /\\ LZ77_MAX_LEN_SRC = 18"""),
+]
+REQUIRES_FOR = dict(REQUIRES_FOR, **{n: _TREQ for n in ("C07_color_index_block_is_src", "C07_alphabet_size_is_src",
+                                                         "C07_tables_taken_from_source", "C07_literals_match_source")})
+COQ_TARGETS = COQ_TARGETS + ["theories/Props/C07t.vo"]
+COQCHK = COQCHK + ["MS.Props.C07t"]
 
 TRUSTED = [
     "Coq 8.16.1 kernel (coqc; coqchk in the thorough tier); vm_compute only in Examples and the table equality C07_distance_map_eq; no native_compute",
